@@ -530,6 +530,44 @@ def run(chk):
 
     outs = common.pmap(batch_worker, c11.batches(exe, jobs, size=60 if quick else 25), chunk=1)
     c11.merge(chk, outs)
+    existing_top_role_stream(chk)
+
+
+def existing_top_role_stream(chk):
+    """indicate_branches on texts that ALREADY use the top role between a parent and a nested node or
+    re-entrancy: exactly one top-role triple must still be added per nested node (count law only; such
+    inputs can make the result contain equal triples, so the other clauses are not judged here)."""
+    import penman
+    from penman import transform
+    from penman.layout import Push
+    from penman.model import Model
+    from penman.tree import Tree
+    m = Model()
+    n = 600 if chk.tier == 'quick' else 6000
+    roles = [':TOP', ':TOP', ':ARG0', ':ARG1', ':mod', ':TOP-of', ':ARG0-of']
+    for i in range(n):
+        node = gen.random_tree_node(chk.rng, gen.fresh_vars(), maxdepth=chk.rng.choice([1, 2, 3]), wf=True, roles=roles,
+                                    atoms=['x', 'y', '"s"'])
+        text = penman.format(Tree(node), indent=None)
+        case = {'stream': 'existing-top-role', 'text': text}
+        chk.count(('toprole', text))
+        try:
+            h = common.timed(penman.decode, text, seconds=5)
+            o = common.timed(transform.indicate_branches, h, m, seconds=5)
+        except Exception as e:       # noqa
+            chk.fail('raises', f'{type(e).__name__} from indicate_branches on a decoded graph that uses the top role', case)
+            continue
+        hv = h.variables()
+        want = 0
+        for t in h.triples:
+            p = next((e for e in h.epidata.get(t, []) if isinstance(e, Push)), None)
+            if p is not None and (p.variable == t[2] or (p.variable == t[0] and t[2] in hv)):
+                want += 1
+        got = sum(1 for t in o.triples if t[1] == m.top_role) - sum(1 for t in h.triples if t[1] == m.top_role)
+        chk.stat('existing-top-role:' + ('has-top-edge' if any(t[1] == m.top_role for t in h.triples) else 'plain'))
+        if got != want:
+            chk.fail('indicate', f'indicate_branches added {got} {m.top_role} triples for {want} nested nodes '
+                                 'on a graph that already uses the top role', case)
 
 
 # ============================================================================================
